@@ -13,7 +13,7 @@ query enumerated without a bound.
 Model (evaluated in Coq): Engine/Bounded.v evaluate_bounded over the engine model of the compiled program
 (Sem/Machine.v query, indexed by the nesting depth of YP.query calls), at a lower and an upper bound of the
 depth that the limit corresponds to; by query_mono the implementation must lie between the two."""
-import sys
+import sys, os
 from lib import progs, ast_io, terms, semcheck
 from lib.terms import g_str, g_list, g_nat, g_term
 from lib.progs import V, A, F
@@ -28,10 +28,10 @@ THEOREMS = ['C17_prefix_mono', 'C17_sld_answers_prefix_monotone', 'C17_machine_a
             'C17_vars_unbound_after', 'C17_result_collected_so_far', 'C17_nested_keeps_rlimit']
 IMPORTS = ['Lang.Ast', 'Sem.Machine', 'Sem.RunSem', 'Sem.Native', 'Sem.RunNative', 'Engine.Bounded', 'Engine.RunBoundedM', 'Engine.RunBoundedN']
 MODEL_NEEDS_IMPL = True
-CASE_TIMEOUT = 30
+CASE_TIMEOUT = 12
 COQ_CHUNK = 12
 CAP = 160            # answers of the unbounded enumeration that are kept
-REFDEPTH = 3000      # recursion limit (above the current depth) of the unbounded enumeration
+REFDEPTH = 1500      # recursion limit (above the current depth) of the unbounded enumeration; beyond about 3000 CPython 3.12 aborts ("Cannot recover from stack overflow") when a deep chain of generators resumed from C code is torn down
 RULE = ('queries {finite random programs with control, cut and call/once/findall; finite searches of prescribed depth (fact chains, peano '
         'countdown, list length); left recursion with and without answers before it, mutual recursion, recursion through call/once/findall/'
         '\\+/if-then-else; infinitely many answers with flat and with growing terms} x recursion limits (cur+1 .. cur+400, dense near the '
@@ -158,7 +158,7 @@ def impl(case):
     from yldprolog import compiler, engine as E
     natives = case.get('native') or []
     yp = E.YP()
-    semcheck.watch_findall(yp)      # see semcheck: identity of variables that findall/3 collects from different answers
+    if not os.environ.get("NOWATCH"): semcheck.watch_findall(yp)      # see semcheck: identity of variables that findall/3 collects from different answers
     yp._verif_findall_inner = False
     cl = c20.rest_clauses(case) if natives else case['clauses']
     if cl:
@@ -621,6 +621,49 @@ def fam_python(rng):
     return {'family': 'py-random', 'clauses': clauses, 'query': rng.choice(queries), 'fpl': 3, 'tdepth': 10, 'maxdelta': 160, 'dchk': 40,
             'native': nats, 'dyn': c20.dyn_terms(dyn)}
 
+def fam_meta(rng):
+    """a deep or infinite goal INSIDE findall/3, once/1, call/N, \\+ or the condition of an if-then-else, with answers of the caller
+    before and after it: when the limit strikes inside the meta-call the whole enumeration ends there (nothing may be caught on
+    the way up), so the result is the prefix delivered before"""
+    q3 = [fact('q', A('a')), fact('q', A('b')), fact('q', A('c'))]
+    nat = [fact('nat', A('z')), ['nat', [F('s', V('X'))], call('nat', V('X'))]]
+    lp0 = [['lp0', [V('X')], call('lp0', V('X'))]]
+    n = rng.choice([2, 5, 10, 20, 40])
+    deep = [['dp', [V('X')], ['and', call('nx', V('X'), V('Y')), call('dp', V('Y'))]], fact('dp', A('e'))] + \
+           [fact('nx', A('n%d' % i), A('n%d' % (i + 1))) for i in range(n)] + [fact('nx', A('n%d' % n), A('e'))]
+    inner = rng.choice(['nat', 'lp0', 'deep'])
+    if inner == 'nat':
+        prog, goal = nat, F('nat', V('Y'))
+    elif inner == 'lp0':
+        prog, goal = lp0, F('lp0', V('Y'))
+    else:
+        prog, goal = deep, F('dp', A('n0'))
+    g = ['call', goal[1], goal[2]]
+    k = rng.randrange(0, 7)
+    if k == 0:
+        body = call('findall', V('Y'), goal, V('L'))
+    elif k == 1:
+        body = call('once', goal)
+    elif k == 2:
+        body = call('call', goal) if not goal[2] or rng.random() < 0.5 else call('call', ['fun', goal[1], goal[2][:-1]] if goal[2][:-1] else A(goal[1]), goal[2][-1])
+    elif k == 3:
+        body = ['not', g]
+    elif k == 4:
+        body = ['or', ['if', g, call('=', V('L'), A('yes'))], call('=', V('L'), A('no'))]
+    elif k == 5:
+        body = call('findall', V('Y'), F('once', goal), V('L'))
+    else:
+        body = ['not', ['not', g]]
+    shape = rng.randrange(0, 3)
+    if shape == 0:      # the meta-call alone
+        cl = [['t', [V('X'), V('L')], ['and', call('=', V('X'), A('only')), body]]]
+    elif shape == 1:    # after each answer of q
+        cl = [['t', [V('X'), V('L')], ['and', call('q', V('X')), body]]]
+    else:               # answers first, then a clause with the meta-call, then more answers
+        cl = [['t', [V('X'), V('L')], call('q', V('X'))], ['t', [V('X'), V('L')], ['and', call('=', V('X'), A('m')), body]], fact('t', A('last'), A('last'))]
+    return {'family': 'meta-' + inner, 'clauses': cl + q3 + prog, 'query': ['t', [V('Q0'), V('Q1')]], 'fpl': 3,
+            'tdepth': 70 if inner == 'nat' else 4, 'maxdelta': 120 if inner == 'nat' else 260, 'need': (n + 6) if inner == 'deep' else None}
+
 def rand_delta(rng, c):
     md = c.get('maxdelta', 400)
     r = rng.random()
@@ -632,7 +675,7 @@ def rand_delta(rng, c):
         d = rng.randrange(60, 400)
     else:
         d = rng.randrange(-3, 2)
-    if 'need' in c and rng.random() < 0.5:
+    if c.get('need') and rng.random() < 0.5:
         # around the depth the search needs
         d = 2 * c['need'] + rng.randrange(-8, 30)
     return min(d, md)
@@ -659,10 +702,10 @@ def decorate(rng, c):
         c['nest'] = [rng.randrange(0, 3), rng.randrange(0, 4), rng.choice(['ok', 'ok', 'low', 'zero']), rs2]
     return c
 
-FAMILIES = [(fam_random, 5), (fam_chain, 3), (fam_countdown, 1), (fam_len, 1), (fam_leftrec, 4), (fam_infinite, 4), (fam_python, 5)]
+FAMILIES = [(fam_random, 5), (fam_chain, 3), (fam_countdown, 1), (fam_len, 1), (fam_leftrec, 4), (fam_infinite, 4), (fam_python, 5), (fam_meta, 5)]
 
 def gen(rng, tier):
-    n = 260 if tier == 'quick' else 4000
+    n = 290 if tier == 'quick' else 4000
     fams = [f for f, w in FAMILIES for _ in range(w)]
     cases = []
     for _ in range(n):
@@ -769,7 +812,16 @@ def describe(case):
             'projection': ('raises %s at answer %d' % (case['raise'][1], case['raise'][0])) if case.get('raise') else
                           ('nested evaluate_bounded at answer %d (%s)' % (case['nest'][0], case['nest'][2])) if case.get('nest') else 'returns the answer'}
 
+_SHRINK_LEFT = [45]     # candidates per run: a candidate may cost a whole CASE_TIMEOUT when the implementation loops
+
 def shrink(case):
+    for c in _shrink(case):
+        if _SHRINK_LEFT[0] <= 0:
+            return
+        _SHRINK_LEFT[0] -= 1
+        yield c
+
+def _shrink(case):
     if case.get('extra_depth'):
         yield dict(case, extra_depth=0)
     if case.get('nest'):
